@@ -605,6 +605,42 @@ def _sg_purge(prog):
     return sg_purge_directions(prog)
 
 
+def pd_first_assign(prog: Program) -> RuleResult:
+    """The first assignment to a collection field - the one the dataclass constructor makes - creates the monitored container. What was
+    assigned is recorded like any later assignment: after the container is created and bound to its owner, control reaches the loop that
+    adds every element through the recording hook. (A container built from the assigned value before the owner is bound holds the
+    elements, but nothing was recorded for them and nothing inferred.)"""
+    from ..cfg import CFG
+
+    r = RuleResult("PD-FIRST-ASSIGN", "elements given on the first assignment of a collection field are recorded like later ones", floor=1)
+    pd = prog.cls("property_descriptor.PropertyDescriptor")
+    f = prog.method(pd.qual, "__set__", inherited=False)
+    cfg = CFG(f.node)
+    created = [n for n in cfg.nodes if n.stmt is not None and n.kind == "stmt" and any(call_name(c) == "_ensure_monitored_type" for c in calls_in(n.stmt))]
+    if not created:
+        raise AnalysisError("PD-FIRST-ASSIGN: PropertyDescriptor.__set__ no longer creates the monitored container through _ensure_monitored_type")
+    adders = {n.id for n in cfg.nodes if n.kind == "for" and any(call_name(c) in ("_add_item", "append", "add") for b in n.stmt.body for c in calls_in(b))}
+    # what _ensure_monitored_type hands back is a monitored container: the false branch of `isinstance(<that local>, MonitoredContainer)` is
+    # not a way out (path-insensitive flow graphs would offer it)
+    made = {t.id for cn in created if isinstance(cn.stmt, ast.Assign) for t in cn.stmt.targets if isinstance(t, ast.Name)}
+    infeasible = set()
+    for t in cfg.nodes:
+        if t.kind == "test" and isinstance(t.stmt, ast.If):
+            tt = t.stmt.test
+            if isinstance(tt, ast.Call) and call_name(tt) == "isinstance" and len(tt.args) == 2 and isinstance(tt.args[0], ast.Name) and tt.args[0].id in made and "MonitoredContainer" in src(tt.args[1]):
+                infeasible |= {x for x in t.succ if x != t.true_succ}
+    skipping = None
+    for cn in created:
+        p = cfg.path_avoiding(cn.id, cfg.exit, adders | infeasible)
+        if p is not None:
+            skipping = skipping or cfg.describe(p)
+    r.check(bool(adders) and skipping is None, "PropertyDescriptor.__set__#first-assignment-recorded", site(f, created[0].stmt), " -> ".join(skipping) if skipping else "",
+            "after the container is created every path runs the recording loop",
+            "after creating the container the setter can return without adding the assigned elements through the hook: a collection given to the constructor "
+            "(Org('o', part_of=[p])) is in the field, but no relation is recorded and nothing is inferred from it - and later facts that should chain with it find nothing in the graph")
+    return r
+
+
 def _rel_edges(prog):
     # the closure is computed over the relations the graph hands out: one hidden behind a parallel edge is a premise that is never used
     from .c14 import rel_edges
@@ -613,4 +649,4 @@ def _rel_edges(prog):
 
 
 def run(prog: Program, tier: str) -> List[RuleResult]:
-    return [_rel_edges(prog), _sg_purge(prog), pd_field(prog), pd_closure(prog), pd_owner(prog), pd_supers(prog), _mc_eq(prog), pd_replace(prog), pd_init(prog), user_truth(prog, ["property_descriptor.property_descriptor", "property_descriptor.monitored_container", "property_descriptor.property_descriptor_relation"], 2)]
+    return [_rel_edges(prog), _sg_purge(prog), pd_field(prog), pd_first_assign(prog), pd_closure(prog), pd_owner(prog), pd_supers(prog), _mc_eq(prog), pd_replace(prog), pd_init(prog), user_truth(prog, ["property_descriptor.property_descriptor", "property_descriptor.monitored_container", "property_descriptor.property_descriptor_relation"], 2)]
